@@ -63,14 +63,22 @@ def _explore_subtree(h, ex, prefixes, max_paths, deadline):
     return recs, work, stats
 
 
+_INIT_ERR = None
+
+
 def _worker_init(hfactory):
-    global _H, _EX
-    _H = hfactory()
-    _EX = _H.make_exec()
+    global _H, _EX, _INIT_ERR
+    try:
+        _H = hfactory()
+        _EX = _H.make_exec()
+    except Exception as e:      # an exception here would make the pool respawn workers forever
+        _INIT_ERR = "worker initialisation failed: " + repr(e) + "\n" + traceback.format_exc()
 
 
 def _worker_task(args):
     prefixes, max_paths, deadline = args
+    if _INIT_ERR:
+        return [], [], {}, _INIT_ERR
     try:
         t0 = time.time()
         recs, left, stats = _explore_subtree(_H, _EX, prefixes, max_paths, deadline)
@@ -155,12 +163,17 @@ _FAM = None
 
 
 def _many_init(famfactory):
-    global _FAM
-    _FAM = famfactory()
+    global _FAM, _INIT_ERR
+    try:
+        _FAM = famfactory()
+    except Exception as e:
+        _INIT_ERR = "worker initialisation failed: " + repr(e) + "\n" + traceback.format_exc()
 
 
 def _many_task(args):
     idx, task, max_paths = args
+    if _INIT_ERR:
+        return idx, [], 0, {}, _INIT_ERR
     try:
         h = _FAM.harness(task)
         ex = _FAM.exec_for(h)
